@@ -1,4 +1,4 @@
-import BreezyVerif.Lemmas.C46Clean
+import BreezyVerif.Lemmas.C46Fixed
 /-!
 C46 — clean-tree deletes only what was asked for.
 
@@ -165,6 +165,16 @@ theorem git_nested_git_kept (hw : f.wf = true) {d : Path} {i : Info} {k : Forest
         simp at hg
   · exact hnb h'
 
+/-- the proposed repair of `_filter_out_nested_controldirs` (`keepFixed`, see
+the report of the check) protects every control directory of every layout: no
+selected path is an entry with a control name, contains one at any depth, or
+lies in a directory below the tree root that holds one -/
+theorem fixed_filter_protects (hw : f.wf = true) {s : Item}
+    (hs : s ∈ selectedWith (keepFixed f) fmt o f) {d : Path} {c : String}
+    (hc : isCtlName c = true) (hm : d ++ [c] ∈ f.paths) :
+    ¬ s.path <+: d ++ [c] ∧ (d ≠ [] → ¬ d <+: s.path) :=
+  fixed_protects hw hs hc hm
+
 /-! ### what the unchanged code gets wrong (witnesses) -/
 
 private def fl (n : String) (v : Bool := false) : Info :=
@@ -181,7 +191,8 @@ theorem nested_branch_deep_witness :
       cons (dr "unk") (cons (dr "sub") (cons (dr ".bzr" false true) nil (cons (fl "file") nil nil)) nil) nil
     f.wf = true ∧ f.unvClosed = true ∧ nestedRoots f = [["unk", "sub"]] ∧
       (selected .bzr unknownOnly f).map (·.path) = [["unk"]] ∧
-      (cleanTree .bzr unknownOnly f).1.paths = [[".bzr"]] := by
+      (cleanTree .bzr unknownOnly f).1.paths = [[".bzr"]] ∧
+      selectedWith (keepFixed f) .bzr unknownOnly f = [] := by
   decide
 
 /-- git tree, `nest/.bzr/README`, `nest/file`: the walk prunes `.git` only, the
@@ -192,7 +203,8 @@ theorem git_tree_nested_bzr_witness :
       cons (dr "nest") (cons (dr ".bzr" false true) (cons (fl "README") nil nil) (cons (fl "file") nil nil)) nil
     f.wf = true ∧ f.unvClosed = true ∧ nestedRoots f = [["nest"]] ∧
       (selected .git unknownOnly f).map (·.path) = [["nest", ".bzr", "README"], ["nest", "file"]] ∧
-      (cleanTree .git unknownOnly f).1.paths = [[".git"], ["nest"], ["nest", ".bzr"]] := by
+      (cleanTree .git unknownOnly f).1.paths = [[".git"], ["nest"], ["nest", ".bzr"]] ∧
+      selectedWith (keepFixed f) .git unknownOnly f = [] := by
   decide
 
 /-- bzr tree with a git repository colocated at the root (or in a versioned
@@ -203,7 +215,8 @@ theorem bzr_tree_git_controldir_witness :
       cons (fl "a" true) nil nil
     f.wf = true ∧ f.unvClosed = true ∧
       (selected .bzr unknownOnly f).map (·.path) = [[".git"]] ∧
-      (cleanTree .bzr unknownOnly f).1.paths = [[".bzr"], ["a"]] := by
+      (cleanTree .bzr unknownOnly f).1.paths = [[".bzr"], ["a"]] ∧
+      selectedWith (keepFixed f) .bzr unknownOnly f = [] := by
   decide
 
 /-! ### non-vacuity -/
